@@ -58,6 +58,23 @@ def run_impl(case):
     mask = (1 << w) - 1
     init = lib.bits(rnd, w) if w else 0
     conv = (lambda v: to_signed(v, w)) if shp == "s" else (lambda v: v)
+    # ---- aggregate shapes (own random stream): an array or struct layout of the same total width is a shape
+    # like any other — the actions work on its bits, not on its elements
+    layout_init = None
+    xl = lib.rng_for(case["seed"], case["idx"], 1242)
+    if shp == "u" and w >= 2 and xl.random() < 0.3:
+        from amaranth.lib import data
+        fact = [(a, w // a) for a in range(2, w) if w % a == 0]
+        if fact and xl.random() < 0.7:
+            a, b = xl.choice(fact)
+            shape = data.ArrayLayout(unsigned(a), b)
+            layout_init = lambda v: [(v >> (k * a)) & ((1 << a) - 1) for k in range(b)]
+            shp = "arr"
+        else:
+            a = xl.randint(1, w - 1)
+            shape = data.StructLayout({"x": unsigned(a), "y": unsigned(w - a)})
+            layout_init = lambda v: {"x": v & ((1 << a) - 1), "y": v >> a}
+            shp = "struct"
     if shape is Sparse:
         init = [0, 1, 2, 5][init % 4]             # an initial value must be a member …
     elif shape is Flags:
@@ -65,7 +82,7 @@ def run_impl(case):
     cls = {"R": action.R, "W": action.W, "RW": action.RW, "RW1C": action.RW1C, "RW1S": action.RW1S,
            "RES": rnd.choice([action.ResRAW0, action.ResRAWL, action.ResR0WA, action.ResR0W0])}[kind]
     if kind in ("RW", "RW1C", "RW1S"):
-        dut = cls(shape, init=(shape(init) if shape in (Sparse, Flags) else conv(init)))
+        dut = cls(shape, init=(shape(init) if shape in (Sparse, Flags) else layout_init(init) if layout_init else conv(init)))
     else:
         dut = cls(shape)
         init = 0
@@ -77,7 +94,7 @@ def run_impl(case):
     reg, off = None, 0
     if inreg:
         from amaranth_soc import csr
-        kw = {"init": (shape(init) if shape in (Sparse, Flags) else conv(init))} if kind in ("RW", "RW1C", "RW1S") else {}
+        kw = {"init": (shape(init) if shape in (Sparse, Flags) else layout_init(init) if layout_init else conv(init))} if kind in ("RW", "RW1C", "RW1S") else {}
         w0, w1 = rnd2.randint(0, 5), rnd2.randint(0, 5)
         coll = rnd2.random() < 0.5
         first = rnd2.random() < 0.5           # the field under test comes before / after the sibling it collides with
